@@ -25,8 +25,9 @@ PROPS = {
     ),
     "C02": dict(
         modules=["GraphSlam.Props.C02"],
-        theorem_files=["GraphSlam/Props/C02/*.lean"],
-        scan_files=["GraphSlam/Real/*.lean", "GraphSlam/Core/*.lean", "GraphSlam/Model/Chi2.lean", "GraphSlam/Props/C09/*.lean"],
+        theorem_files=["GraphSlam/Props/Tie/GraphPy.lean", "GraphSlam/Props/C02/*.lean"],
+        scan_files=["GraphSlam/Generated/GraphPy.lean", "GraphSlam/Real/*.lean", "GraphSlam/Core/*.lean", "GraphSlam/Model/Chi2.lean", "GraphSlam/Props/C09/*.lean"],
+        graph_tie=True,
         corr=[
             ("harness.entry", "layer_a", dict(only=["Edge", "BaseEdge", "Pose", "Util"], quick=25, thorough=400)),
             ("harness.entry", "graph_chi2", dict(quick=60, thorough=2000)),
@@ -162,7 +163,7 @@ PROPS = {
     "C15": dict(
         modules=["GraphSlam.Props.C15"],
         theorem_files=["GraphSlam/Props/Tie/GraphPy.lean", "GraphSlam/Props/C15/*.lean"],
-        scan_files=["GraphSlam/Generated/GraphPy.lean", "GraphSlam/Core/*.lean", "GraphSlam/Model/NumJac.lean", "GraphSlam/Model/Assembly.lean", "GraphSlam/Props/C16/*.lean", "GraphSlam/Props/C06/*.lean"],
+        scan_files=["GraphSlam/Generated/GraphPy.lean", "GraphSlam/Model/Heap.lean", "GraphSlam/Model/Run.lean", "GraphSlam/Model/GraphIter.lean", "GraphSlam/Core/*.lean", "GraphSlam/Model/NumJac.lean", "GraphSlam/Model/Assembly.lean", "GraphSlam/Props/C16/*.lean", "GraphSlam/Props/C06/*.lean"],
         graph_tie=True,
         corr=[("harness.entry", "purity", dict()), ("harness.entry", "numjac", dict(quick=25, thorough=800))],
         search=("search.entry", "c15"),
@@ -173,16 +174,17 @@ PROPS = {
         "in place to expose aliasing; non-trivial = one operation",
         assumptions=["SE(2) angles in range (every pose the library produces is: C11)"],
         proved_level="partial",
-        unproved=["numpy object semantics (fresh array vs view, in-place +=, attribute rebinding) are modelled as value semantics; aliasing is only observed by the trace harness"],
+        unproved=["the object-identity model (Model/Heap.lean) is itself a hand model of numpy / Python object semantics (which operations allocate, which re-bind, which write in place): its frame theorems hold for all histories, its agreement with the interpreter is observed by the trace harness, not proved",
+                  "queries other than the built-in calc_error, and custom edges' calc_error, are assumed to read only and to allocate their results (the dictionary / dense-array writes of the assembly go into arrays created by the same call)"],
         technique="Lean 4 proof: frame conditions of hand models (perturb/restore loop of _calc_jacobian, update loop) for all histories; numpy aliasing observed by a bitwise trace check",
-        level_text="Proved: the numerical-differentiation loop returns the store exactly as it found it for every pose type (copy p = p discharged for the generated copy of R2/R3/SE3, and SE2 in range), for any error function and any number of vertices; "
+        level_text="Proved on an explicit OBJECT-IDENTITY model (Model/Heap.lean: a growing heap of arrays, vertices and edges hold object ids, any aliasing allowed; Props/C15/Heap*.lean) for ALL histories of operations: (1) append-only - every operation except normalize() (the one in-place operation of the library) and the caller's own writes leaves every pre-existing object bit-identical, no call re-binds an edge attribute or changes an id / gradient index, fixed flags change only in optimize, to applyFixFirst; (2) queries leave the world unchanged except heap growth and are deterministic; the numerical-differentiation loop re-binds only the differentiated vertex, to a new object with the same content; (3) optimize: a fixed vertex keeps the same object, every free vertex gets its own NEW object holding old [+] dx-slice, pairwise distinct - two vertices (or a vertex and a measurement) that shared one object are not double-updated and the shared object keeps its entries; (4) copies are independent; (5) refinement: reading the world through its references gives exactly Model.numJacobian / Model.applyDx / Model.Run.iterStates. Also (value level): the numerical-differentiation loop returns the store exactly as it found it for every pose type (copy p = p discharged for the generated copy of R2/R3/SE3, and SE2 in range), for any error function and any number of vertices; "
         "optimize preserves the vertex layout and every fixed pose for any solver behaviour and iteration count; operators are functions of their operands in the model. PARTIAL: aliasing/in-place behaviour of numpy objects is checked by the trace harness only.",
         level_note="Partial by nature: the property is largely about runtime object behaviour; the logic part is proved, the rest explored on every run.",
     ),
     "C16": dict(
         modules=["GraphSlam.Props.C16"],
         theorem_files=["GraphSlam/Props/Tie/GraphPy.lean", "GraphSlam/Props/C16/*.lean"],
-        scan_files=["GraphSlam/Generated/GraphPy.lean", "GraphSlam/Core/*.lean", "GraphSlam/Model/NumJac.lean", "GraphSlam/Real/Instance.lean"],
+        scan_files=["GraphSlam/Generated/GraphPy.lean", "GraphSlam/Model/GraphIter.lean", "GraphSlam/Model/Run.lean", "GraphSlam/Model/Assembly.lean", "GraphSlam/Props/C04/*.lean", "GraphSlam/Props/C01/*.lean", "GraphSlam/Core/*.lean", "GraphSlam/Model/NumJac.lean", "GraphSlam/Real/Instance.lean"],
         graph_tie=True,
         corr=[("harness.entry", "numjac", dict(quick=40, thorough=1500))],
         search=("search.entry", "c16"),
@@ -192,9 +194,10 @@ PROPS = {
         "perturbed pose vs generated box-plus, every column bit-equal to Model.fdColumn on the implementation's perturbed error, store restored bitwise; non-trivial = one edge",
         assumptions=["the custom error function is C^2 along box-plus with second derivative bounded by M on [0, 1e-6] (hypothesis of the accuracy theorem)", "real arithmetic: cancellation error of the float difference quotient is not covered"],
         proved_level="partial",
-        unproved=["'graphs built from such edges converge to the same optimum' is a convergence statement (see C05): explored by optimising twin graphs, not proved"],
+        unproved=["'converge to the same optimum' for NON-affine errors is a convergence statement (see C05): proved are exactness for affine errors (whole call reaches the same unique optimum), the O(eps) perturbation of H and b, and agreement of stationary points up to C*eps; the convergence itself is explored by optimising twin graphs",
+                  "the C^2 hypothesis of the accuracy / perturbation theorems is discharged from the generated code for both SE(2) edge classes and (trivially) R^n; for SE(3) edges it stays a hypothesis"],
         technique="Lean 4 proof: loop induction for the model of _calc_jacobian; mean-value inequality (Mathlib) for the forward-difference error bound; tied by bit-exact correspondence",
-        level_text="Proved: for any error function over any number of vertices of any pose types, the model of _calc_jacobian returns shape err.shape+(dim,) with column d = (err(p [+] eps e_d) - err(p))/eps and restores the store; "
+        level_text="Proved (Props/C16/*.lean): (a) fd_exact_of_affine / numJacobian_of_affine - a forward difference of an affine error is EXACT for any eps != 0; for the generated R^2/R^3 odometry and landmark errors (and the landmark vertex of SE(2)/SE(3) landmark edges) the numerically differentiated Jacobian IS the generated calc_jacobians_*; (b) custom_assembly_exact, numSystem_eq, numStep_eq, numOptimizeSolve_eq, num_optimize_linear_optimum_R2/_R3 - n-ary edges with affine errors give literally the same EdgeLin records, hence the same chi2, b, H, the same iteration and the same WHOLE CALL, which (C04) reaches the unique global minimiser: the second clause of C16 holds exactly for affine errors; (c) gradContrib_perturb, hessContrib_perturb, dense_gradient_perturb, dense_hessian_perturb, numSystem_perturb - Jacobians entrywise within delta give b, H within explicit polynomial bounds; (d) stationary_points_agree_coarse, numSystem_stationary - the numerical and the analytic iteration have the same stationary points up to C*delta; numLin_jacClose_of_C2 gives delta = M*eps; graph_SE2_perturb / graph_SE2_stationary discharge the C^2 hypothesis from the generated SE(2) code (explicit M). Also: for any error function over any number of vertices of any pose types, the model of _calc_jacobian returns shape err.shape+(dim,) with column d = (err(p [+] eps e_d) - err(p))/eps and restores the store; "
         "a forward difference of a C^2 function with |f''|<=M on [0,eps] is within M*eps of the derivative, hence each entry is within M*1e-6 of the true box-plus derivative. PARTIAL: the convergence clause is explored (twin graphs), not proved.",
         level_note="Hand model tied by tools/harness/numjac.py (bitwise).",
     ),
@@ -297,11 +300,12 @@ PROPS = {
         level_note="Trusted: Lean kernel, Mathlib's analysis library, the py2lean translator (validated at Float every run). Real arithmetic, not IEEE-754. SE(2) theorems exclude the wrap discontinuity of the result angle.",
     ),
     "C17": dict(
-        modules=["GraphSlam.Props.C17"],
-        theorem_files=["GraphSlam/Props/C17.lean"],
-        scan_files=["GraphSlam/Props/C17/*.lean", "GraphSlam/Model/Equals.lean", "GraphSlam/Model/CmpCommon.lean"],
+        modules=["GraphSlam.Props.C17", "GraphSlam.Props.Tie.CmpPySpec"],
+        theorem_files=["GraphSlam/Props/Tie/CmpPy.lean", "GraphSlam/Props/Tie/CmpPySpec.lean", "GraphSlam/Props/C17.lean"],
+        scan_files=["GraphSlam/Generated/CmpPy.lean", "GraphSlam/Model/CmpFacts.lean", "GraphSlam/Props/C17/*.lean", "GraphSlam/Model/Equals.lean", "GraphSlam/Model/CmpCommon.lean"],
         drivers=("gsdriver_cmp",),
         needs_generated=False,
+        cmp_tie=True,
         corr=[("harness.equals", "entry", dict())],
         search=("search.equals", "entry"),
         always_search=True,
@@ -324,11 +328,12 @@ PROPS = {
         level_note="Trusted: Lean kernel, Mathlib reals/sqrt, the hand model (tied every run by 0.34M/2.4M exact outcome comparisons), harness abstraction functions. NaN/inf data are outside the theorems (a NaN information matrix compares equal to anything: noted).",
     ),
     "C18": dict(
-        modules=["GraphSlam.Props.C18"],
-        theorem_files=["GraphSlam/Props/C18.lean"],
-        scan_files=["GraphSlam/Props/C18/*.lean", "GraphSlam/Model/Validity.lean", "GraphSlam/Model/CmpCommon.lean"],
+        modules=["GraphSlam.Props.C18", "GraphSlam.Props.Tie.CmpPySpec"],
+        theorem_files=["GraphSlam/Props/Tie/CmpPy.lean", "GraphSlam/Props/Tie/CmpPySpec.lean", "GraphSlam/Props/C18.lean"],
+        scan_files=["GraphSlam/Generated/CmpPy.lean", "GraphSlam/Model/CmpFacts.lean", "GraphSlam/Props/C18/*.lean", "GraphSlam/Model/Validity.lean", "GraphSlam/Model/CmpCommon.lean"],
         drivers=("gsdriver_cmp",),
         needs_generated=False,
+        cmp_tie=True,
         corr=[("harness.validity", "entry", dict())],
         search=("search.validity", "entry"),
         always_search=True,
